@@ -502,8 +502,17 @@ func genC07(r *Rng, tier string) []Case {
 				seedSx = L()
 				stab = L()
 			}
+			var pad []byte
+			if r.Chance(1, 8) && seedSx.K == 1 { // strategy returns the signature followed by extra bytes
+				pad = r.Bytes(1 + r.Intn(16))
+				sig = append(append([]byte{}, sig...), pad...)
+				stab = L(L(B(dtbs), B(sig)))
+			}
 			vtab := L(L(B(recorded), B(dtbs), B(sig), Bool(ed25519.Verify(ed25519.PublicKey(recorded), dtbs, sig))))
-			cs = append(cs, Case{"ib_sign_and_add", []Sx{B(hash), stackInSx(stack), B(recorded), attrsSx(attrs), stab, vtab, seedSx}})
+			cs = append(cs, Case{"ib_sign_and_add", []Sx{B(hash), stackInSx(stack), B(recorded), attrsSx(attrs), stab, vtab, seedSx, B(pad)}})
+			if pad != nil {
+				break
+			}
 			if mismatch || seedSx.K != 1 {
 				break
 			}
